@@ -23,11 +23,12 @@ def check(run, tier):
     for dev in ("evo", "fluent"):
         progs += targeted.worklist_programs(dev) + targeted.permutation_programs(dev, 3 if q else 4) + targeted.reject_programs(dev)
         progs += [p for p in targeted.split_programs(dev) if "multidisp" not in p["id"]]
+        progs += [p for p in targeted.round2_programs(dev) if "nosplit" in p["id"] or "same-format" in p["id"]]
     n = 120 if q else 3000
     for i in range(n):
         dev = "evo" if i % 2 == 0 else "fluent"
         p = programs.worklist_program(r, f"C07/r{i}", dev, r.randint(1, 4), unit=Fraction(1), maxunits=60, wlmax=r.choice([3, 5, 7]),
-                                      comps=False, diti=(i % 5 == 0), small=False,
+                                      comps=False, diti=(i % 5 == 0), small=False, autosplit=(i % 4 != 1),
                                       weights={"transfer": 1, "distribute": 0, "aspirate": 0, "dispense": 0, "add": 0, "remove": 0},
                                       transfer_kw={"nmax": 12, "kwargs": True})
         progs.append(p)
